@@ -34,6 +34,7 @@ func checkC04(c *Ctx, r *Report) {
 	r.rule("C04.BASE", "strconv.ParseInt / ParseUint in input coercers: base is the constant 10")
 	c04Base(c, r, "C04.BASE", "CoerceIn")
 	c04Input(c, r)
+	importRulesFrom(c, r, "C18", func(c *Ctx, sub *Report) { c18Num(c, sub) }, "C04.LITERAL", "an integer literal of a request is converted by strconv.ParseInt and a token it rejects goes to ParseFloat (C18.NUM): a conversion written by hand beside it (a digit loop with its own idea of what fits 64 bits) can wrap a literal around instead of rejecting it", "C18.NUM")
 	importRules(c, r, "C10", "C04.FDEF", "the argument declarations a value is coerced against are those of the field definition looked up in the container type of this evaluation (C10.FIELD): a definition taken from a type remembered on the parsed field coerces Int64-declared values for an Int argument", "C10.FIELD~lookup uses the container type")
 }
 
